@@ -2,7 +2,7 @@
 from engine.facts import AnalysisBroken, atomic_op, atomic_ops, has_acquire, has_release
 from engine.rules import (calls, calls_named, every_path_passes, last_member, is_call_to, Defs, resolve_cond_source, oname,
                           edges_where, dominated_by_edges, member_accesses, root_of, assignments, value_root, atomics_on,
-                          elem_fn_uid, Summaries, access_kind)
+                          elem_fn_uid, Summaries, access_kind, product_walk_from)
 
 UNITS = ['drivers/containers.cpp']
 D1N = 'tbb::detail::d1::'
@@ -49,6 +49,7 @@ def run(facts, rep):
     d5_bucket_count_pow2(facts, rep)
     d6_functors(facts, rep)
     d7_range_empty(facts, rep)
+    d8_size_follows_the_links(facts, rep)
 
 
 def d1_list(facts, rep):
@@ -595,3 +596,82 @@ def d7_range_empty(facts, rep):
                    'one-element container visits nothing' % why, key_extra='range-empty')
     if n < 2:
         raise AnalysisBroken('container range types with begin/end/empty/is_divisible: %d (expected the ordered and the unordered one)' % n)
+
+
+def d8_size_follows_the_links(facts, rep):
+    """"final contents are exactly the union of successful inserts": size() / empty() of the unordered containers are a counter
+    kept beside the list, so the counter has to move with the links.  The unsafe (non-concurrent) operations take nodes out with
+    unlink_node: on every path from such a call to the end of the operation (the function exit, or the next unlink in a loop) the
+    size of the container the node was taken from drops by exactly one - unless the node is linked back (merge: the insertion
+    into the destination lost against an equivalent key), in which case it does not drop at all.  Counted path-sensitively;
+    size changes inside unlink_node itself are included."""
+    U = ub(facts)
+    n = 0
+
+    def size_delta_elem(g, e):
+        """change of my_size by one element of g: -1 / +1 / 0"""
+        if not isinstance(e, int):
+            return 0
+        o = atomic_op(g, e)
+        if not o or last_member(g, o['obj']) != 'my_size':
+            return 0
+        if o['kind'] == 'rmw':
+            if o['name'] in ('fetch_sub', 'operator--', 'operator-='):
+                return -1
+            if o['name'] in ('fetch_add', 'operator++', 'operator+='):
+                return 1
+        if o['kind'] == 'store' and o.get('val', -1) >= 0:
+            x = g.n(g.strip(o['val']))
+            if x.get('k') == 'binop' and x['op'] in ('-', '+') and g.cv(x['r']) == 1 and \
+                    any((atomic_op(g, y) or {}).get('kind') == 'load' and last_member(g, atomic_op(g, y)['obj']) == 'my_size' for y in g.subtree(x['l'])):
+                return -1 if x['op'] == '-' else 1
+        return 0
+    unlink_fns = [f for f in facts.fns.values() if f.p == U + 'unlink_node']
+    if not unlink_fns:
+        raise AnalysisBroken('concurrent_unordered_base::unlink_node not found')
+    inner = {}
+    for f in unlink_fns:
+        d = 0
+        for b, i, e in f.iter_elems():
+            d += size_delta_elem(f, e)
+        inner[f.u] = d
+    for fn in sorted(facts.fns.values(), key=lambda f: f.q):
+        if not fn.p.startswith(U) or fn.p == U + 'unlink_node':
+            continue
+        us = [(pos, s, node) for pos, s, node, d in calls(fn) if (d or {}).get('p') == U + 'unlink_node']
+        if not us:
+            continue
+        upos = set(p for p, _, _ in us)
+        for pos, s, node in us:
+            n += 1
+            args = node.get('a', [])
+            victim = fn.n(fn.strip(args[1])).get('v') if len(args) > 1 else None
+
+            def tr(st, p_, e, victim=victim):
+                links, size = st
+                if isinstance(e, int):
+                    nd = fn.nodes[e]
+                    if nd.get('k') == 'call' and (fn.callee(e) or {}).get('n') == 'set_next' and victim is not None and \
+                            any(fn.nodes[x].get('k') == 'var' and fn.nodes[x].get('v') == victim for a in nd.get('a', []) for x in fn.subtree(a)):
+                        links += 1           # the node is linked back behind its predecessor
+                    size += size_delta_elem(fn, e)
+                if abs(links) > 3 or abs(size) > 3:
+                    return None
+                return (links, size)
+            # stop a path when it reaches another unlink: treat as end of this operation
+            ends = set()
+
+            def tr2(st, p_, e):
+                if p_ in upos:               # the next unlink (of the next loop iteration too): this operation is over
+                    ends.add(st)
+                    return None
+                return tr(st, p_, e)
+            visits, exits = product_walk_from(fn, pos, (-1, inner.get(node.get('fn'), 0)), tr2)
+            finals = set(exits) | ends
+            bad = sorted(st for st in finals if st[0] != st[1])
+            rep.ob('D8', 'K3', fn, 'after a node was taken out with unlink_node the size drops by one - unless the node is linked back', not bad and bool(finals),
+                   'paths on which the list and the counter disagree (links, size): %s - size()/empty() of the source no longer say what '
+                   'the container holds (a merge that lost the race for a key leaves the key in the source but counts it out)' % bad,
+                   ln=node.get('ln'), key_extra='unlink|%s' % fn.p)
+    if n < 2:
+        raise AnalysisBroken('callers of unlink_node: %d (expected internal_extract and internal_merge)' % n)
